@@ -541,19 +541,21 @@ func ctr(key string) int64 {
 	return 0
 }
 
-// waitCtr waits, by steps, until the counter has reached target.
+// waitCtr waits, by steps, until the counter has reached target: 2000 yields,
+// then 4000 half-millisecond sleeps (the aggregation loop normally needs
+// microseconds, so the bound is > 10^4 x the normal latency).
 func waitCtr(key string, target int64) bool {
-	for step := 0; step < 30000; step++ {
+	for step := 0; step < 6000; step++ {
 		if ctr(key) >= target {
 			return true
 		}
 		if step < 2000 {
 			runtime.Gosched()
 		} else {
-			time.Sleep(time.Duration(1+(step-2000)/100) * 50 * time.Microsecond)
+			time.Sleep(500 * time.Microsecond)
 		}
 	}
-	return false
+	return ctr(key) >= target
 }
 
 type obs struct {
@@ -641,6 +643,7 @@ func runCase(res *mon.Result, c *tcase, st *stats) (ok bool) {
 	base := rt.read()
 	copy(aggWant, base.aggs)
 	sentinels := 0
+	aggLagging := false
 
 	account := func(line string, o *oracle.C01Outcome) {
 		st.lines++
@@ -729,14 +732,14 @@ func runCase(res *mon.Result, c *tcase, st *stats) (ok bool) {
 		}
 		cur := rt.read()
 		w := func(observed interface{}) interface{} { return witness(line, &o, observed) }
-		cause := ""
+		cause, why := "", fmt.Sprintf("its filter rejects the name after rewriting %q", o.Name)
 		switch {
 		case !o.Valid:
-			cause = "invalid-"
+			cause, why = "invalid-", "the line is invalid"
 		case o.Blacklisted:
-			cause = "blacklisted-"
+			cause, why = "blacklisted-", "the name is blacklisted"
 		case o.Consumed >= 0:
-			cause = "dropraw-consumed-"
+			cause, why = "dropraw-consumed-", fmt.Sprintf("drop-raw aggregation #%d consumed it", o.Consumed)
 		}
 		if d := cur.in - prev.in; d != 1 {
 			add("in-count", fmt.Sprintf("table %d line %d %q: direction=in moved by %d", c.Index, li, line, d), w(d))
@@ -763,7 +766,7 @@ func runCase(res *mon.Result, c *tcase, st *stats) (ok bool) {
 				case o.Routes[i] && len(got) > 1:
 					add("route-duplicate", fmt.Sprintf("table %d line %d %q: route %s handed the line %d times", c.Index, li, line, mr.Key, len(got)), w(lines))
 				case !o.Routes[i] && len(got) > 0:
-					add(cause+"route-extra", fmt.Sprintf("table %d line %d %q: route %s {%s} must not receive it (%sname after rewriting %q) but was handed %q", c.Index, li, line, mr.Key, mr.Filter.C01Opts(), cause, o.Name, lines), w(lines))
+					add(cause+"route-extra", fmt.Sprintf("table %d line %d %q: route %s {%s} must not receive it (%s) but was handed %q", c.Index, li, line, mr.Key, mr.Filter.C01Opts(), why, lines), w(lines))
 				case o.Routes[i] && !sameFields(lines[0], o.Fields):
 					add("route-wrong-line", fmt.Sprintf("table %d line %d %q: route %s was handed %q, expected fields %q", c.Index, li, line, mr.Key, lines[0], o.Fields), w(lines))
 				}
@@ -781,7 +784,7 @@ func runCase(res *mon.Result, c *tcase, st *stats) (ok bool) {
 					if e == 0 {
 						sig = cause + "dest-extra:" + mr.Type
 					}
-					add(sig, fmt.Sprintf("table %d line %d %q: consistentHashing route %s {%s}: %d destinations account for the line (per destination %v), expected %d", c.Index, li, line, mr.Key, mr.Filter.C01Opts(), sum, deltas, e), w(deltas))
+					add(sig, fmt.Sprintf("table %d line %d %q (name after rewriting %q): consistentHashing route %s {%s}: %d destinations account for the line (per destination %v), expected %d", c.Index, li, line, o.Name, mr.Key, mr.Filter.C01Opts(), sum, deltas, e), w(deltas))
 				}
 				continue
 			}
@@ -791,7 +794,7 @@ func runCase(res *mon.Result, c *tcase, st *stats) (ok bool) {
 				case deltas[j] < e:
 					add("dest-missed:"+mr.Type, fmt.Sprintf("table %d line %d %q: %s route %s destination #%d %s {%s} must be handed name %q, hand-off counter moved by %d (route destinations %v)", c.Index, li, line, mr.Type, mr.Key, j, d.Addr, d.Filter.C01Opts(), o.Name, deltas[j], deltas), w(deltas))
 				case deltas[j] > e:
-					add(cause+"dest-extra:"+mr.Type, fmt.Sprintf("table %d line %d %q: %s route %s destination #%d %s {%s} must not be handed name %q (expected per destination %v), hand-off counter moved by %d (observed %v)", c.Index, li, line, mr.Type, mr.Key, j, d.Addr, d.Filter.C01Opts(), o.Name, o.Dests[i], deltas[j], deltas), w(deltas))
+					add(cause+"dest-extra:"+mr.Type, fmt.Sprintf("table %d line %d %q: %s route %s destination #%d %s {%s} must not be handed it (%s; expected per destination %v), hand-off counter moved by %d (observed %v)", c.Index, li, line, mr.Type, mr.Key, j, d.Addr, d.Filter.C01Opts(), destWhy(why, o), o.Dests[i], deltas[j], deltas), w(deltas))
 				}
 			}
 		}
@@ -801,7 +804,9 @@ func runCase(res *mon.Result, c *tcase, st *stats) (ok bool) {
 				aggWant[i]++
 			}
 			target := aggWant[i] + int64(sentinels)
-			waitCtr(rt.aggKeys[i], target)
+			if !aggLagging {
+				aggLagging = !waitCtr(rt.aggKeys[i], target) // after one expired bound, do not wait per line any more in this table
+			}
 			if got := ctr(rt.aggKeys[i]); got != target {
 				add("agg-in-count", fmt.Sprintf("table %d line %d %q: aggregation #%d {%s} input counter is at %d after this line, expected %d (this line counts: %v)", c.Index, li, line, i, m.Aggs[i].Filter.C01Opts(), got-base.aggs[i]-int64(sentinels), aggWant[i]-base.aggs[i], o.AggIn[i]), w(got))
 				aggWant[i] = got - int64(sentinels) // resynchronise
@@ -809,9 +814,7 @@ func runCase(res *mon.Result, c *tcase, st *stats) (ok bool) {
 		}
 		prev = cur
 	}
-	if !rt.aggBarrier(c, aggWant, &sentinels) {
-		res.Inconclusive(fmt.Sprintf("table %d: an aggregation did not consume its sentinel within the step bound", c.Index))
-	}
+	rt.aggBarrier(c, aggWant, &sentinels)
 	for i, k := range rt.aggKeys {
 		if got, e := ctr(k), aggWant[i]+int64(sentinels); got != e {
 			add("agg-in-count", fmt.Sprintf("table %d: after the sequential phase aggregation #%d {%s} counted %d inputs, expected %d", c.Index, i, m.Aggs[i].Filter.C01Opts(), got-base.aggs[i]-int64(sentinels), aggWant[i]-base.aggs[i]), witness("(sequential phase total)", nil, got))
@@ -930,9 +933,7 @@ func runCase(res *mon.Result, c *tcase, st *stats) (ok bool) {
 			chk("hash-total", fmt.Sprintf("consistentHashing route %s: sum of its destinations' hand-off counters", mr.Key), sum, e.hash[i])
 		}
 	}
-	if !rt.aggBarrier(c, aggWant, &sentinels) {
-		res.Inconclusive(fmt.Sprintf("table %d: an aggregation did not consume its sentinel within the step bound", c.Index))
-	}
+	rt.aggBarrier(c, aggWant, &sentinels)
 	for i, k := range rt.aggKeys {
 		if got, ex := ctr(k), aggWant[i]+int64(sentinels); got != ex {
 			add("conc:agg-in-count", fmt.Sprintf("table %d: after 8-way dispatch aggregation #%d {%s} counted %d inputs in total, expected %d", c.Index, i, m.Aggs[i].Filter.C01Opts(), got-base.aggs[i]-int64(sentinels), aggWant[i]-base.aggs[i]), cw(got))
@@ -978,6 +979,13 @@ func runCase(res *mon.Result, c *tcase, st *stats) (ok bool) {
 	}
 	st.tables++
 	return true
+}
+
+func destWhy(why string, o oracle.C01Outcome) string {
+	if o.Valid && !o.Blacklisted && o.Consumed < 0 {
+		return fmt.Sprintf("name after rewriting %q", o.Name)
+	}
+	return why
 }
 
 func b2i(b bool) int64 {
